@@ -503,6 +503,15 @@ func unicodePred(name string, f func(rune) bool) externalFn {
 			}
 			lo := smt.Eq(smt.TableLookup("uni_"+name, 1, tbl, smt.Extract(7, 0, r.e)), smt.Const(1, 1))
 			hi := smt.Eq(smt.App("uf_"+name, 1, r.e), smt.Const(1, 1))
+			if name == "IsSpace" {
+				// the white-space runes beyond Latin-1 are few: exact
+				hi = smt.Bool(false)
+				for _, rg := range [][2]uint64{{0x1680, 0x1680}, {0x2000, 0x200a}, {0x2028, 0x2029}, {0x202f, 0x202f}, {0x205f, 0x205f}, {0x3000, 0x3000}} {
+					hi = smt.Or(hi, smt.And(smt.Cmp("bvuge", r.e, smt.Const(32, rg[0])), smt.Cmp("bvule", r.e, smt.Const(32, rg[1]))))
+				}
+			}
+			// what decoding invalid UTF-8 yields is classified as the real function does
+			hi = smt.Ite(smt.Eq(r.e, smt.Const(32, uint64(utf8.RuneError))), smt.Bool(f(utf8.RuneError)), hi)
 			isLatin := smt.Cmp("bvult", r.e, smt.Const(32, 256))
 			return mkSym(smt.Ite(isLatin, lo, hi), types.Bool)
 		}
